@@ -1200,6 +1200,41 @@ def _hoist_verdict(st, fx):
 
 
 # --------------------------------------------------------------------- driver
+def _flag_loops(stmts):
+    """F = True; for v in X: if [not] C: F = False; break      is   F = all(C' for v in X)
+       F = False; for v in X: if C: F = True; break            is   F = any(C for v in X)
+    (X a plain path, C without calls that could have effects other than reads)"""
+    out = []
+    k = 0
+    while k < len(stmts):
+        a = stmts[k]
+        b = stmts[k + 1] if k + 1 < len(stmts) else None
+        ok = (isinstance(a, ast.Assign) and len(a.targets) == 1 and isinstance(a.targets[0], ast.Name) and isinstance(a.value, ast.Constant) and isinstance(a.value.value, bool)
+              and isinstance(b, ast.For) and not b.orelse and access_path(b.iter) is not None and len(b.body) == 1 and isinstance(b.body[0], ast.If) and not b.body[0].orelse
+              and len(b.body[0].body) == 2 and isinstance(b.body[0].body[1], ast.Break) and isinstance(b.body[0].body[0], ast.Assign)
+              and len(b.body[0].body[0].targets) == 1 and isinstance(b.body[0].body[0].targets[0], ast.Name) and b.body[0].body[0].targets[0].id == a.targets[0].id
+              and isinstance(b.body[0].body[0].value, ast.Constant) and b.body[0].body[0].value.value is (not a.value.value))
+        if ok:
+            flag = a.targets[0].id
+            test = b.body[0].test
+            if any(isinstance(n, ast.Name) and n.id == flag for n in ast.walk(test)) or any(isinstance(n, (ast.Call, ast.NamedExpr, ast.Await, ast.Yield)) for n in ast.walk(test)):
+                ok = False
+        if ok:
+            if a.value.value is True:
+                cond = test.operand if isinstance(test, ast.UnaryOp) and isinstance(test.op, ast.Not) else ast.UnaryOp(op=ast.Not(), operand=test)
+                fname = "all"
+            else:
+                cond, fname = test, "any"
+            gen = ast.GeneratorExp(elt=cond, generators=[ast.comprehension(target=b.target, iter=b.iter, ifs=[], is_async=0)])
+            out.append(_loc(ast.Assign(targets=[ast.Name(id=flag, ctx=ast.Store())], value=ast.Call(func=ast.Name(id=fname, ctx=ast.Load()), args=[gen], keywords=[])), a))
+            STATS["flag_loop"] = STATS.get("flag_loop", 0) + 1
+            k += 2
+            continue
+        out.append(a)
+        k += 1
+    return out
+
+
 def _block(stmts, fx, occ, top=False):
     # tuple assignments are split first so that a loop counter initialised in one (`flag, i = False, 0`) is visible
     pre = []
@@ -1223,7 +1258,7 @@ def _block(stmts, fx, occ, top=False):
             st = _loc(ast.Assign(targets=[st.target], value=st.value), st) if st.value is not None else _loc(ast.Pass(), st)
         r = _split_tuple(st)
         pre.extend(r if r is not None else [st])
-    stmts = pre
+    stmts = _flag_loops(pre)
     k = 0
     while k < len(stmts):
         if isinstance(stmts[k], ast.While):
